@@ -232,6 +232,10 @@ def perform(spec, w, ctx):
             r = w.dump(*[ctx['key_of'](e) for e in spec.get('keys', [])])
         elif op == 'archived':
             r = w.archived(bool(spec['flag']))
+        elif op == 'attach':
+            # a (new, empty) archive is attached after decoration
+            _, ka, _ = _mods()
+            r = w.archive(ka.dict_archive())
         else:
             return ('unsupported', op)
         return ('return', r)
